@@ -14,9 +14,21 @@ single failure point of that shape is replayed:
   5. the n-th LINE event inside the ZConfig package raises InjectedFault /
      InjectedAbort (sys.monitoring failpoints, Appendix E exclusions).
 
-Oracle after each run, whatever ended the call: the resource tracker reports
-no open resource / stream, and a follow-up clean load on the same schema /
-loader objects gives the fault-free baseline outcome again.
+Oracle after each run, whatever ended the call (exception or none):
+
+  (1) the resource tracker reports no open resource / URL stream, and every
+      URL stream was already closed when the next resource was created;
+  (2) follow-up 1: the same public call, same schema object, fresh loader,
+      gives the fault-free baseline outcome again and leaves the application
+      schema object's digest unchanged;
+  (3) follow-up 2 (loader-object entry points): the *same* SchemaLoader /
+      ConfigLoader instance loads again and gives the baseline (a
+      SchemaLoader._cache holding a half-built schema, or a ConfigLoader
+      remembering a half-done %import, shows up here).
+
+One mechanism classifier exists (configloader-reused-after-failed-import,
+confirmed on the pinned tree, fixed in the tree since): see
+``loader_reuse_applies`` / ``forget_imports``.
 """
 
 import hashlib
@@ -54,7 +66,12 @@ LEVEL_TEXT = ("Per scenario the enumeration of single failure points is "
 LEVEL_NOTE = ("One fault per run (no double faults); faults in the closing "
               "code itself (Resource.__enter__/__exit__/close, with-headers, "
               "the try:/finally: of openResource) are outside the domain by "
-              "definition; only file: and package: resources (no network).")
+              "definition; only file: and package: resources (no network). "
+              "The n-th line failpoint is realised as 'k-th visit of "
+              "location L' read off a counting pass (LINE events switched on "
+              "for L's code object only); this equals 'n-th LINE event' as "
+              "long as the load is deterministic, which a second counting "
+              "pass after the enumeration re-checks (drift => inconclusive).")
 ASSUMPTIONS = [
     "a resource counts as closed when the object createResource returned has "
     "closed==True and file is None and the stream handed to createResource "
@@ -72,19 +89,21 @@ ASSUMPTIONS = [
     "close are not armed (Appendix E; computed from the AST of the tree "
     "under test)",
 ]
-FLOORS = {"quick": {"judged": 4000, "scenarios": 18, "line_runs": 2000,
-                    "faults_read": 300, "faults_conv": 100,
-                    "faults_open": 40, "faults_sect": 40},
-          "thorough": {"judged": 200000, "scenarios": 250,
-                       "line_runs": 150000, "faults_read": 5000,
-                       "faults_conv": 2000, "faults_open": 800,
-                       "faults_sect": 600}}
+FLOORS = {"quick": {"judged": 20000, "scenarios": 22, "line_runs": 20000,
+                    "line_scenarios": 10, "faults_read": 250,
+                    "faults_conv": 90, "faults_open": 40, "faults_sect": 35,
+                    "same_loader_followups": 2000},
+          "thorough": {"judged": 600000, "scenarios": 280,
+                       "line_runs": 600000, "line_scenarios": 280,
+                       "faults_read": 3500, "faults_conv": 2000,
+                       "faults_open": 450, "faults_sect": 900,
+                       "same_loader_followups": 100000}}
 HOOK_FLOORS = {t: {"createResource": 100, "urlopen": 100,
                    "openPackageResource": 10, "line_failpoint_fired": 100,
                    "dt_injected": 50}
                for t in ("quick", "thorough")}
 
-N_SCENARIOS = {"quick": 22, "thorough": 300}
+N_SCENARIOS = {"quick": 24, "thorough": 300}
 LINE_CAP = 40000            # per scenario, recorded if ever hit
 EXC_BY_NAME = {"ValueError": ValueError, "RuntimeError": RuntimeError}
 
@@ -436,15 +455,15 @@ def fixed_scenarios(rng):
         gen_include(rng, "fileobj", 2, "chain", False, q),
         gen_schema(rng, "fileobj", "mixed", q, False),
         gen_import(rng, "loader-url", "nested", q),
-        gen_include(rng, "url", 4, "tree", False, t),
+        gen_include(rng, "url", 4, "tree", False, q),
         gen_include(rng, "stringio", 3, "star", False, t),
-        gen_include(rng, "loader-file", 4, "diamond", False, t),
+        gen_include(rng, "loader-file", 4, "diamond", False, q),
         gen_include(rng, "path", 3, "tree", True, t),
         gen_import(rng, "url", "included", t),
-        gen_import(rng, "fileobj", "dotted", t),
+        gen_import(rng, "fileobj", "dotted", q),
         gen_import_shipped(rng, "basic", "path", t),
         gen_import_shipped(rng, "logger", "loader-url", t),
-        gen_schema(rng, "loader-file", "shipped-basic", t, False),
+        gen_schema(rng, "loader-file", "shipped-basic", q, False),
         gen_schema(rng, "stringio", "extends", t, False),
         gen_schema(rng, "fileobj-rb", "src", t, False),
         gen_schema(rng, "path", "mixed", t, True),
@@ -681,6 +700,7 @@ class Subject:
         self.env = env
         self.sc = sc
         self.schema = None
+        self.line_plan = []
         self._opened = []
         self.load_schema()
 
@@ -697,6 +717,20 @@ class Subject:
         if self.schema is None:
             return None
         return schema_digest(self.schema)
+
+    def plan_lines(self):
+        """Counting pass: enumerate the failpoints of the fault-free call.
+        The n-th LINE event is the k-th visit of its location; armed runs
+        switch events on for that location's code object only."""
+        cnt = self.attempt(["count", "trace"], self.new_loader())
+        seen = {}
+        plan = []
+        for code, line in cnt.shot.trace:
+            k = seen.get((code, line), 0) + 1
+            seen[(code, line)] = k
+            plan.append((code, line, k))
+        self.line_plan = plan
+        return cnt
 
     def restore(self):
         """Fresh schema object + the same warm-up as at the start, so the
@@ -792,8 +826,10 @@ class Subject:
         try:
             try:
                 if fault is not None and fault[0] == "line":
-                    with m.fp.armed(fault[1],
-                                    failpoints.EXC_CLASSES[fault[2]]) as shot:
+                    code, line, k = self.line_plan[fault[1] - 1]
+                    with m.fp.armed_at(
+                            code, line, k,
+                            failpoints.EXC_CLASSES[fault[2]]) as shot:
                         a.shot = shot
                         result, a.loader = self.call(loader)
                 elif fault is not None and fault[0] == "count":
@@ -822,11 +858,17 @@ class Subject:
                 pass
         if exc is None:
             a.end = "returned"
-            if self.sc["op"] == "config":
-                cfg, handlers = result
-                a.out = ["ok", canon_value(cfg), len(handlers)]
-            else:
-                a.out = ["ok", schema_digest(result)]
+            try:
+                if self.sc["op"] == "config":
+                    cfg, handlers = result
+                    a.out = ["ok", canon_value(cfg), len(handlers)]
+                else:
+                    a.out = ["ok", schema_digest(result)]
+            except Exception as e:          # noqa
+                # a changed ZConfig returned something that is not a
+                # configuration / schema: still an outcome to compare
+                a.out = ["ok", "not-canonical", type(result).__name__,
+                         type(e).__name__]
         else:
             a.end = describe_exception(exc)
             a.out = ["reject", type(exc).__name__,
@@ -882,22 +924,49 @@ MECH_LOADER_REUSE = "configloader-reused-after-failed-import"
 
 
 def loader_reuse_applies(subj, attempt):
-    """Input / failure features of the one confirmed mechanism:
+    """Input features of the one confirmed mechanism: the faulted call was
+    made on a ConfigLoader *object*, the configuration (or a file it
+    includes) contains %import, and that call failed.
 
-    the faulted call was made on a ConfigLoader *object*, the configuration
-    (or a file it includes) contains %import, and that call failed.
     ``ConfigLoader.importSchemaComponent`` switches the loader to a private
     derived schema and registers the component URL in it *before* the
     component is parsed, so a loader whose %import failed half-way keeps a
-    private schema that claims to have the component.  Only loads made
-    through that same loader object can see this; the neutraliser is
-    therefore "the same load through a fresh ConfigLoader over the same
-    schema object", which this check always runs first (follow-up 1).
+    private schema that claims to have the component (with none, or only
+    some, of its types and keys).  Only loads made through that same loader
+    object can see this: follow-up 1 (fresh ConfigLoader, same schema
+    object) has already given the baseline when this is consulted.
     """
     sc = subj.sc
     return (sc["op"] == "config" and sc["entry"].startswith("loader")
             and any("%import" in t for t in sc["files"].values())
             and attempt.end != "returned")
+
+
+def import_state(subj, loader):
+    """Observed %import memory of a ConfigLoader right after a call:
+    'none', 'private' (derived schema in place) or 'half-switched' (the
+    fault fell between ``_private_schema = True`` and ``self.schema =
+    derived``: the next %import on this loader parses the component into the
+    application schema itself)."""
+    try:
+        if not loader._private_schema:
+            return "none"
+        return "half-switched" if loader.schema is subj.schema else "private"
+    except AttributeError:
+        return "unknown"
+
+
+def forget_imports(subj, loader):
+    """Neutraliser of the mechanism: reset exactly the loader's %import
+    memory (nothing else of its state) -- what a loader looks like that has
+    never seen %import."""
+    try:
+        loader._private_schema
+        loader.schema = subj.schema
+        loader._private_schema = False
+        return True
+    except AttributeError:
+        return False
 
 
 def where_of(sc, fault, attempt):
@@ -1003,6 +1072,8 @@ def judge(ctx, subj, si, fault, base):
     #     schema, a ConfigLoader must not remember a half-done %import
     if a.loader is not None and not damaged:
         res.count("same_loader_followups")
+        state_after_fault = import_state(subj, a.loader) \
+            if sc["op"] == "config" else None
         c = subj.attempt(None, a.loader)
         d2 = subj.schema_state()
         bad_out = c.out != base.out
@@ -1017,14 +1088,25 @@ def judge(ctx, subj, si, fault, base):
                 vsig="leak-followup2|%s|%s" % (fault[0], short_where))
         if bad_out or bad_schema:
             ok = False
+            mech = None
+            if loader_reuse_applies(subj, a):
+                if bad_schema:
+                    if state_after_fault == "half-switched":
+                        mech = MECH_LOADER_REUSE
+                elif state_after_fault == "private" \
+                        and forget_imports(subj, a.loader):
+                    n = subj.attempt(None, a.loader)
+                    if (n.out == base.out and not n.problems
+                            and subj.schema_state() == base.schema_state):
+                        mech = MECH_LOADER_REUSE
             damaged = bad_schema
-            mech = MECH_LOADER_REUSE if loader_reuse_applies(subj, a) \
-                else None
             res.count("poisoned_same_loader")
             res.violate(
                 "later-load-on-same-loader-changed", case,
                 expected=_summ(base.out),
                 observed={"outcome": _summ(c.out),
+                          "loader_import_state_after_fault":
+                          state_after_fault,
                           "schema_object_changed": bad_schema and
                           _diff(base.schema_state, d2)},
                 detail="%s: the loader object used for the failed call "
@@ -1154,7 +1236,7 @@ def run_scenario(ctx, mach, si, sc, mode="full", only_fault=None):
             res.count("fault_points_kinds_1_4", len(faults))
         if not lines_enabled(sc, ctx.tier):
             return
-        cnt = subj.attempt(["count"], subj.new_loader())
+        cnt = subj.plan_lines()
         n_events = cnt.shot.count
         if n_events > LINE_CAP:
             res.info["line_cap_hit"] = True
@@ -1183,13 +1265,16 @@ def replay_line(ctx, subj, si, fault, base):
     """Event numbers depend on warm caches; first try the recorded index,
     then every index whose event lies on the recorded line."""
     landed = fault[3] if len(fault) > 3 else None
-    a, ok = judge(ctx, subj, si, fault[:3], base)
+    subj.plan_lines()
+    n = fault[1]
+    ok = True
+    if 1 <= n <= len(subj.line_plan):
+        a, ok = judge(ctx, subj, si, fault[:3], base)
     if not ok or not landed:
         return
-    cnt = subj.attempt(["count", "trace"], subj.new_loader())
     tried = 0
-    for idx, (qual, line) in enumerate(cnt.shot.trace, 1):
-        if qual == landed[1] and line == landed[2] and idx != fault[1]:
+    for idx, (code, line, k) in enumerate(list(subj.line_plan), 1):
+        if code.co_qualname == landed[1] and line == landed[2] and idx != n:
             tried += 1
             if tried > 60:
                 break
